@@ -10,9 +10,10 @@ The other side of the conversation is a daemon with a pin table `cid → state`
 and one scripted *behaviour* per sequential request.  A behaviour says in which
 wire form the daemon answers; every behaviour is mapped to the *class* the
 connector can tell apart (`clsOf`).  A daemon that answers 200 has done what was
-asked; a daemon that answers non-200 has done nothing (the one exception is
-`serr`, the error object inside a 200 progress stream, which is what go-ipfs
-sends when a pin fails after the first progress message).
+asked; a daemon that answers non-200 has done nothing.  `serr` is what go-ipfs
+sends when a pin fails after the first progress message: status 200 is already
+on the wire, the error travels as an object inside the stream and/or in the
+`X-Stream-Error` trailer; nothing is pinned.
 -/
 namespace CV.C16
 
@@ -49,7 +50,7 @@ inductive Beh
   | ps     -- answers 200, sends some progress, then never continues
   | pss    -- (pin/add) keeps the stream alive but the progress number never rises
   | slow   -- (pin/add) slow stream with rising progress, completes
-  | serr   -- (pin/add) 200 stream that carries an IPFS error object, nothing pinned
+  | serr   -- (pin/add) 200 stream that carries an IPFS error object and/or the X-Stream-Error trailer, nothing pinned
   | b200   -- 200, done what was asked, body unparsable
   deriving DecidableEq, Repr, Inhabited
 
@@ -64,7 +65,7 @@ inductive Cls
   | stall       -- no (complete) reply, ever
   | noProgress  -- (pin/add) stream alive, progress stuck
   | slowOk      -- (pin/add) slow but progressing, completes
-  | streamErr   -- (pin/add) error object inside a 200 stream; no effect
+  | streamErr   -- (pin/add) error object inside a 200 stream and/or error trailer; no effect
   | badBody     -- 200, effect applied, unparsable body
   deriving DecidableEq, Repr
 
@@ -207,7 +208,7 @@ def addCall (t : Table) (c : Nat) (depth : Int) (b : Beh) : Res × Table :=
     match addHonest t c (typeRec depth) with
     | some t' => (.err, t')
     | none => (.err, t)
-  | .streamErr => (.ok, t)     -- the error object decodes as a progress message, then EOF: "Pinned!"
+  | .streamErr => (.err, t)    -- a message with Type "error", or a non-empty X-Stream-Error trailer at EOF
   | _ => (.err, t)
 
 /-- `pinUpdate`: plain `postCtx`, no deadline of its own -/
